@@ -38,6 +38,14 @@ def run_check(ctx):
     n, ns = (16000, 8) if ctx.tier == "thorough" else (640, 6)
     progcheck.run_gen(ctx, "C05", FEATURES, n, ns, depth=2, nest=3, lo=2, hi=5,
                       nontrivial=_nontrivial, classify=_classify, native_all=(ctx.tier == "thorough"))
+    # compound assignment table: every (target type, source type) pair for + - * / %; cells inside the class of the
+    # listed signed->wider-unsigned conversion finding (C02/C03) are excluded by construction and counted
+    from . import c03
+    ctxs = ("compound_add", "compound_sub", "compound_mul", "compound_div", "compound_mod")
+    allc = [(cx, ts, tt) for cx in ctxs for ts in c03.TYPES for tt in c03.TYPES]
+    cells = [c_ for c_ in allc if not c03.classes_of(*c_)]
+    ctx.exclude("compound-assignment cell inside the signed->wider-unsigned conversion class", len(allc) - len(cells))
+    run.run_sharded(ctx, c03.table_worker, [(cells[i::16], ctx.tier, set(), "C05") for i in range(16)])
     for c in ("class:if", "class:for", "class:if-else", "class:compound-assign", "class:nested-for"):
         if ctx.classes.get(c, 0) == 0:
             raise run.HarnessError(f"generator produced no program of {c}")
